@@ -84,7 +84,7 @@ def _source_files():
     return out
 
 
-BUILD_RECIPE = b'recipe-3: kernels linked with --wrap=PyGILState_Ensure/Release'
+BUILD_RECIPE = b'recipe-4: kernels linked with --wrap of PyGILState_Ensure/Release and PyEval_SaveThread/RestoreThread'
 
 
 def source_digest():
@@ -105,7 +105,7 @@ def _build_kernel(rel, full, stage):
     openmp = KERNELS[rel]
     h = hashlib.blake2b(digest_size=12)
     h.update(open(full, 'rb').read())
-    h.update(b'omp+gilwrap2' if openmp else b'noomp')
+    h.update(b'omp+gilwrap3' if openmp else b'noomp')
     h.update(_digest_file(os.path.join(NATIVE_SRC, 'simrt.c')).encode()[:0])  # ABI is by symbol name only
     key = h.hexdigest()
     modname = os.path.splitext(os.path.basename(rel))[0]
@@ -125,7 +125,8 @@ def _build_kernel(rel, full, stage):
             cflags.append('-fopenmp')
         # PyGILState_Ensure is routed through the simulated runtime, which records a GIL acquisition inside a parallel
         # region as a synchronisation construct (a `with gil:` block is a critical section)
-        link = ['-L' + NATIVE, '-lsimrt', '-Wl,-rpath,' + NATIVE, '-Wl,--wrap=PyGILState_Ensure', '-Wl,--wrap=PyGILState_Release'] if openmp else []
+        link = ['-L' + NATIVE, '-lsimrt', '-Wl,-rpath,' + NATIVE, '-Wl,--wrap=PyGILState_Ensure', '-Wl,--wrap=PyGILState_Release',
+                '-Wl,--wrap=PyEval_SaveThread', '-Wl,--wrap=PyEval_RestoreThread'] if openmp else []
         # note: no -fopenmp at link time, so libgomp is not pulled in; the GOMP_*
         # symbols resolve to libsimrt.
         _run(['gcc'] + cflags + _includes() + ['-o', so + '.tmp', os.path.join(cdir, modname + '.c')] + link + ['-lm'])
